@@ -304,6 +304,28 @@ func replayRev(e *vh.Env, kind, arg string) bool {
 		n, _ := strconv.Atoi(f[6])
 		e.Emit(runRev(f[0] == "true", uint32(st), ms, x, y, parseI64s(f[5]), n, "replay"))
 		return true
+	case "dense":
+		f := strings.SplitN(arg, ":", 4)
+		if len(f) != 4 {
+			return false
+		}
+		n, _ := strconv.Atoi(f[1])
+		how, _ := strconv.Atoi(f[2])
+		var bl []blockSpec
+		for _, t := range strings.Split(f[3], ";") {
+			g := strings.SplitN(t, "=", 2)
+			if len(g) != 2 {
+				return false
+			}
+			st, _ := strconv.ParseUint(g[0], 10, 32)
+			var ps []int16
+			for _, x := range parseI64s(g[1]) {
+				ps = append(ps, int16(x))
+			}
+			bl = append(bl, blockSpec{uint32(st), ps})
+		}
+		e.Emit(runDense(f[0] == "true", bl, n, how, "replay"))
+		return true
 	case "revs":
 		f := strings.SplitN(arg, ":", 2)
 		if len(f) != 2 {
